@@ -36,6 +36,7 @@ RULE = (
     "tokens: substrings, case variants, doubled, prefixed / suffixed); missing backing / data file also in combination with the other.  Oracle: opening the mutated input "
     "raises (any exception) — for key-safe gates unlock raises and leaves attr unchanged — while the unmodified base opens. "
     "Non-trivial = base opened and the value is outside the accepted set; distinct = (gate, value)."
+    ' Unknown locator kinds also as a second member of a list next to a usable pair; differencing VHDX handed over as a nameless file object while the parent exists; keystore modes that continue behind a line-boundary-like character with an accepted assignment.'
 )
 ASSUMPTIONS = [
     "QCOW2 compression types >= 2: the accepted set per the reader is {zlib, zstd-if-available}; the oracle is 'open raises or the "
